@@ -324,7 +324,7 @@ func setupTSS(e *Env, o core.RunOpts) error {
 	if e.Ch.Bool("cfg.tss.paramchurn", 400) {
 		gov := &GovActor{}
 		e.Shared["gov"] = gov
-		e.Actors = append(e.Actors, gov, &TSSParamChurn{Rate: 15 + e.Ch.Intn("cfg.tss.churnrate", 40)})
+		e.Actors = append(e.Actors, gov, &TSSParamChurn{Rate: 15 + e.Ch.Intn("cfg.tss.churnrate", 40), Edges: o.Prop == "C10" && e.Ch.Bool("cfg.tss.churn.edges", 500)})
 	}
 	e.Actors = append(e.Actors,
 		&TSSActor{Pool: pool, ByzP: e.Ch.Intn("cfg.tss.byz", 500), ReactP: 100 + e.Ch.Intn("cfg.tss.react", 400), OverDEP: e.Ch.Intn("cfg.tss.overde", 120)},
